@@ -37,7 +37,7 @@ ENCODED = ["twisted.web.static:File._rangeToOffsetAndSize", "twisted.web.static:
 BOUNDS = {"quick": {"nd": 2, "nd2": 1, "vals": 0, "n1": 100}, "thorough": {"nd": 3, "nd2": 2, "vals": 1, "n1": 100}}
 B = {}
 BOUNDS_TEXT = ("r2os/smt_r2os: file size, first-pos, last-pos / suffix-length any integers (unbounded); "
-               "parse: 'bytes=' + 1-2 range-specs, every number 1..nd symbolic digits (second spec 1..nd2), one "
+               "parse: 'bytes=' + 1-2 range-specs, every number 1..nd symbolic digits (with two specs: first number 1..2, the others 1..nd2 digits), one "
                "symbolic junk byte (all 256 values) inserted at every position; single/multi: file sizes and "
                "positions from small menus (0..12, 99..101), producers' bufferSize scaled to 4 (single) and "
                "256 (multipart, separators are ~75 bytes)")
@@ -613,7 +613,7 @@ def _parse_shards(tier):
         for idx, u in enumerate(use):
             if not u:
                 opts = [0]
-            elif two and idx >= 2:
+            elif two and idx >= 1:
                 opts = list(range(1, nd2 + 1))
             elif two:
                 opts = list(range(1, min(nd, 2) + 1))
@@ -831,7 +831,7 @@ def multi_buf(n1: int, n2: int, n3: int) -> bool:
 HARNESSES = [
     H(r2os, shards=[("start is None",), ("start is not None", "end is None"),
                     ("start is not None", "end is not None")], timeout={"quick": 60, "thorough": 300}),
-    H(parse, shards=_parse_shards, timeout={"quick": 60, "thorough": 900},
+    H(parse, shards=_parse_shards, timeout={"quick": 90, "thorough": 900},
       note="a, bb, c, d are ASCII digit strings and junk is one latin-1 character (constraints added per shard)"),
     H(single, shards=lambda tier: [("vi == %d" % v, "sizei == %d" % s) for v in range(BOUNDS[tier]["vals"] + 1)
                                    for s in range(len(_SIZES[v]))], timeout={"quick": 60, "thorough": 300}),
